@@ -26,8 +26,18 @@ OriginClasses == DOMAIN OriginOf
 
 \* rule forms: value of AccessControlAllowOrigins
 ListOf == [one |-> <<A>>, two |-> <<A, B>>, star |-> <<"*">>, echo |-> <<"%origin">>,
-           null |-> <<"null">>, echoone |-> <<"%origin", A>>]
-Forms == DOMAIN ListOf
+           null |-> <<"null">>, echoone |-> <<"%origin", A>>,
+           nomatch |-> <<>>]                      \* pseudo form: no rule of the product matches the request
+Forms == DOMAIN ListOf \ {"nomatch"}
+
+\* A product has an ordered LIST of rules; the rule that governs a request is the first one
+\* whose condition matches it ("the matching rule"); later rules are not consulted.
+CondExpr == [all |-> "default_t()", api |-> "req_path_prefix_in(\"/api\", false)",
+             none |-> "req_path_prefix_in(\"/zzz\", false)"]
+Matches(cond, path) == cond = "all" \/ (cond = "api" /\ path = "/api/x")
+Governing(rules, path) ==
+    LET idx == {i \in DOMAIN rules : Matches(rules[i].cond, path)} IN
+    IF idx = {} THEN 0 ELSE CHOOSE i \in idx : \A j \in idx : i <= j
 
 Kinds == {"simple", "preflight", "options"}    \* GET; OPTIONS + Access-Control-Request-Method; bare OPTIONS
 
@@ -95,13 +105,15 @@ VaryOK(form, oc, before, r) ==
 Loads(form, cred) == ~(form = "star" /\ cred)
 
 IsPreflight(kind, oc) == kind = "preflight" /\ oc # "absent"
+\* the module answers a preflight itself only when a rule governs the request
+Answers(form, kind, oc) == IsPreflight(kind, oc) /\ form # "nomatch"
 
 AddVary(lines) == IF \E t \in Tokens(lines) : t = "*" \/ IsOriginTok(t) THEN lines
                   ELSE Append(lines, <<"Origin">>)
 
 \* headers the module sets when the origin matches; full = methods / headers / expose / max-age configured
 Handle(form, cred, full, kind, oc, before) ==
-    LET pre == IsPreflight(kind, oc)
+    LET pre == Answers(form, kind, oc)
         base == IF pre THEN <<>> ELSE before                   \* the preflight answer is built by the module
         hit == Allowed(form, oc) IN
     IF ~hit THEN [acao |-> "", acac |-> "", other |-> {}, vary |-> base, preflight |-> pre]
@@ -125,27 +137,50 @@ Params == [form : Forms, cred : BOOLEAN, full : BOOLEAN, kind : Kinds, oc : Orig
 GenForms == IF MaxTok >= 3 THEN {"one", "echo", "star"} ELSE Forms
 GenOrigins == IF MaxTok >= 3 THEN {"allowed", "other"} ELSE {"allowed", "other", "absent"}
 
-Mk(p, vc, v) == [form |-> p.form, cred |-> p.cred, full |-> p.full, kind |-> p.kind, oc |-> p.oc, vc |-> vc, vary |-> v]
+\* rule lists whose conditions overlap (specific then catch-all, catch-all then specific, ...)
+RuleSpecs == {r \in [cond : {"api", "all", "none"}, form : {"one", "star", "echo"}, cred : BOOLEAN, full : {FALSE}] :
+                Loads(r.form, r.cred)}
+RuleLists == [1..2 -> RuleSpecs] \cup (IF MaxTok >= 3 THEN [1..3 -> RuleSpecs] ELSE {})
+
+\* cur.form / cred / full are those of the governing rule
+Mk(rules, path, kind, oc, vc, v) ==
+    LET g == Governing(rules, path) IN
+    [rules |-> rules, path |-> path, kind |-> kind, oc |-> oc, vc |-> vc, vary |-> v,
+     form |-> IF g = 0 THEN "nomatch" ELSE rules[g].form,
+     cred |-> IF g = 0 THEN FALSE ELSE rules[g].cred,
+     full |-> IF g = 0 THEN FALSE ELSE rules[g].full]
+One(p) == <<[cond |-> "all", form |-> p.form, cred |-> p.cred, full |-> p.full]>>
 Init == \/ \E p \in {x \in Params : (x.kind = "preflight" /\ x.oc # "absent") => x.vc = "none"} :
-              cur = Mk(p, p.vc, VaryOf[p.vc])
+              cur = Mk(One(p), "/x", p.kind, p.oc, p.vc, VaryOf[p.vc])
         \/ \E v \in GenVary, f \in GenForms, o \in GenOrigins :
-              cur = Mk([form |-> f, cred |-> FALSE, full |-> FALSE, kind |-> "simple", oc |-> o], GenClass(v), v)
+              cur = Mk(One([form |-> f, cred |-> FALSE, full |-> FALSE]), "/x", "simple", o, GenClass(v), v)
+        \/ \E rs \in RuleLists, path \in {"/x", "/api/x"}, k \in {"simple", "preflight"}, o \in {"allowed", "other"} :
+              cur = Mk(rs, path, k, o, "ae", VaryOf["ae"])
 Next == UNCHANGED cur
 
-Before == IF IsPreflight(cur.kind, cur.oc) THEN V(<<>>) ELSE cur.vary
+LoadsAll == \A i \in DOMAIN cur.rules : Loads(cur.rules[i].form, cur.rules[i].cred)
+Before == IF Answers(cur.form, cur.kind, cur.oc) THEN V(<<>>) ELSE cur.vary
 Base == Before.lines
 Result == Handle(cur.form, cur.cred, cur.full, cur.kind, cur.oc, cur.vary.lines)
 
 \* M |= P
-PGrant == Loads(cur.form, cur.cred) => GrantOK(cur.form, cur.oc, Result)
-PStar  == Loads(cur.form, cur.cred) => NoStarWithCredentials(Result)
-PVary  == Loads(cur.form, cur.cred) => VaryOK(cur.form, cur.oc, Base, Result)
+PGrant == LoadsAll => GrantOK(cur.form, cur.oc, Result)
+PStar  == LoadsAll => NoStarWithCredentials(Result)
+PVary  == LoadsAll => VaryOK(cur.form, cur.oc, Base, Result)
+
+RuleLabel(r) == r.cond \o ":" \o r.form \o (IF r.cred THEN "+c" ELSE "")
+FormLabel == IF Len(cur.rules) = 1 /\ cur.rules[1].cond = "all" THEN cur.form
+             ELSE Join([i \in DOMAIN cur.rules |-> RuleLabel(cur.rules[i])], ">")
 
 \* the case handed to the harness and the expectations handed to the family
 CaseOut ==
-    [form |-> cur.form, oclass |-> cur.oc, kind |-> cur.kind, vclass |-> cur.vc,
-     rule |-> [origins |-> ListOf[cur.form], cred |-> cur.cred, full |-> cur.full],
+    [form |-> FormLabel, oclass |-> cur.oc, vclass |-> cur.vc,
+     kind |-> cur.kind \o (IF cur.path = "/x" THEN "" ELSE "@api"),
+     rules |-> [i \in DOMAIN cur.rules |->
+                  [cond |-> CondExpr[cur.rules[i].cond], origins |-> ListOf[cur.rules[i].form],
+                   cred |-> cur.rules[i].cred, full |-> cur.rules[i].full]],
      req |-> [method |-> IF cur.kind = "simple" THEN "GET" ELSE "OPTIONS",
+              path |-> cur.path,
               origin |-> OriginOf[cur.oc],
               acrm |-> IF cur.kind = "preflight" THEN "PUT" ELSE "",
               vary |-> Lines(cur.vary)],
@@ -153,6 +188,6 @@ CaseOut ==
                acao |-> IF Allowed(cur.form, cur.oc) THEN GrantValue(cur.form, cur.oc) ELSE "",
                needvary |-> Allowed(cur.form, cur.oc) /\ DependsOnOrigin(cur.form),
                keep |-> Tokens(Base)],
-     expM |-> [loads |-> Loads(cur.form, cur.cred), acac |-> Result.acac, other |-> Result.other,
+     expM |-> [loads |-> LoadsAll, acac |-> Result.acac, other |-> Result.other,
                vary |-> Lines([lines |-> Result.vary, sep |-> cur.vary.sep]), preflight |-> Result.preflight]]
 =============================================================================
